@@ -844,3 +844,59 @@ def make_band(which):
 
 for _w in ('thdm', 'mssm'):
     make_band(_w)
+
+# ---------------------------------------------------------------------------------------------------
+# MSSM leading-log functions: for parameters of EITHER sign every logarithm and square root is inside its domain (a contribution that is NaN is not "a finite number").
+# m_SUSY (log_scale) by its callee contract: positive (C07.callee.log_scale.m_susy, re-registered below).
+# ---------------------------------------------------------------------------------------------------
+M1L = 'src/MSSMNoFV/gm2_1loop.cpp'
+MSSM_LL = [(M2L, n) for n in ('amu2LFSfapprox', 'amu2LFSfapprox_non_tan_beta_resummed', 'delta_g1', 'delta_g2', 'delta_yuk_higgsino', 'delta_yuk_bino_higgsino',
+                              'delta_yuk_wino_higgsino', 'delta_tan_beta')]
+
+def make_mssm_domain(file, fn):
+    @obligation('C11.mssm.domains.%s' % fn, fns=[(file, fn)])
+    def ob(ctx, file=file, fn=fn):
+        """ensures for ALL models with positive soft masses squared, non-zero Mu, M1, M2 of either sign, positive scale, vevs and SM masses, MW < MZ: every logarithm is taken of a
+        positive number and every square root of a non-negative one, on every path (loop functions by contract; m_SUSY > 0 by the callee contract of log_scale)"""
+        LS = z3.Real('m_SUSY')
+        def uf(name):
+            return lambda it_, a, t: it_.uf('fn_' + name, *[z3.simplify(z3real(x)) for x in a if is_sym(x) or isinstance(x, (int, float, Fr))])
+        stubs = {n: uf(n) for n in ('Fa', 'Fb', 'Iabc', 'F1C', 'F2C', 'F1N', 'F2N', 'F3C', 'F4C', 'F3N', 'F4N')}
+        stubs['log_scale'] = lambda it_, a, t: LS
+        it = Interp(ctx.w, mode='sym', stubs=stubs, feasibility=False, div_sides=False)
+        m = it.new_object('MSSMNoFV_onshell', symbolic_fields(None, prefix='m.'))
+        f = m.f
+        pre = [LS > 0, f['MassB'] != 0, f['MassWB'] != 0, f['Mu'] != 0, f['MassG'] != 0, f['scale'] > 0, f['vd'] > 0, f['vu'] > 0, f['g1'] > 0, f['g2'] > 0, f['g3'] > 0]
+        for nm in ('mq2', 'ml2', 'mu2', 'md2', 'me2'):
+            for i in range(3):
+                pre.append(z3real(f[nm].get(i, i)) > 0)
+        ph = f['physical'].f
+        for nm in ('MVWm', 'MVZ', 'MFt', 'MFb', 'MFtau', 'MFm'):
+            if nm in ph and is_sym(ph[nm]):
+                pre.append(ph[nm] > 0)
+        if 'MVWm' in ph and 'MVZ' in ph:
+            pre.append(ph['MVWm'] < ph['MVZ'])
+        for nm in ('MSm', 'MStau', 'MSb', 'MSt', 'MCha', 'MChi'):
+            if nm in f and hasattr(f[nm], 'elems'):
+                pre += [z3real(x) > 0 for x in f[nm].elems() if is_sym(x)]
+        for nm in ('MSvmL', 'MSveL', 'MSvtL', 'MAh', 'EL', 'EL0'):
+            if nm in f and is_sym(f[nm]):
+                pre.append(f[nm] > 0)
+        it.assumptions = pre
+        fds = [d for d in ctx.w.find(fn, file) if len(d.params) == 1]
+        if len(fds) != 1:
+            ctx.record('', ERROR, 'B', 0, 'extraction: %d definitions of %s' % (len(fds), fn))
+            return
+        ps = it.run_paths(lambda: it.invoke(fds[0], [m], None), max_paths=200)
+        ctx.merge_rules(it)
+        n = 0
+        for k, (s, r, e) in enumerate(ps):
+            n += 1
+            ctx.sides('path%d' % k, s, pre, only=lambda d: d.startswith(('ln', 'sqrt', 'log')), timeout_ms=8000)
+        ctx.record('paths', PROVED if n else ERROR, 'B', 0, '%d path(s)' % n)
+    return ob
+
+for _file, _fn in MSSM_LL:
+    make_mssm_domain(_file, _fn)
+from contracts import c07 as _c07_c11
+_rr_static('C11', 'C07', 'C07.callee.log_scale.m_susy', 'C11.callee.log_scale.m_susy')
